@@ -38,7 +38,7 @@ BUILTINS = ["map", "filter", "sum", "max", "min", "len", "range", "abs", "round"
 NUMS = ["0", "1", "2", "3", "42", "100", "0.5", "2.5", "3.14159", "1000000", "1_000", "0x1F", "0b101",
         "1e3", "2.5e-3", "123456789012", ".5", "7"]
 STRS = ['"a"', '"hello world"', '""', "'single'", '"x//y"', "'say // no'", '"héllo"', '"it\'s"',
-        '"a somewhat longer string literal to push the width"', '"k"']
+        '"a somewhat longer string literal to push the width"', '"k"', "'q\"uote // x'", "'\"'"]
 INFIX = ["+", "-", "*", "/", "%", "^", "==", "!=", "<", "<=", ">", ">=", ".==", ".!=", ".<", ".<=", ".>",
          ".>=", "&&", "||", "??"]
 NATURAL = ["and", "or"]
